@@ -122,6 +122,7 @@ fn max_level_child(job: &[u8]) -> Vec<u8> {
 }
 
 pub fn run(args: &Args) -> i32 {
+    // --replay: the whole space is enumerated in well under a second, so a replay is a re-run
     let mut rep = Report::new(args, "exploration");
     let known_empty = rep.is_open("F10");
     let mut empty_hit = false;
